@@ -1,5 +1,187 @@
 package main
 
+import (
+	"bytes"
+	"fmt"
+	"sort"
+	"strings"
+
+	"github.com/anishathalye/porcupine"
+)
+
+// C09, oracle 2: every concurrent history must be linearizable with respect
+// to the implementation run sequentially.  The model state is the ordered
+// list of distinct template names whose first top-level execution has taken
+// effect: that is the only thing an execute/read call can change in a set
+// (analysis is data-independent and happens once per template).  Step replays,
+// on a fresh twin set, benign first executions in state order followed by the
+// operation, and compares.
+
+type c09In struct {
+	op *Op
+}
+
+type c09Model struct {
+	cr *checkResult
+}
+
+func (m *c09Model) prefixOps(state string) []Op {
+	if state == "" {
+		return nil
+	}
+	var ops []Op
+	for _, n := range strings.Split(state, "\x00") {
+		ops = append(ops, Op{Kind: opExecTmpl, Set: 0, Name: n, Data: benignData()})
+	}
+	return ops
+}
+
+func firstExecName(op *Op, r *Result) (string, bool) {
+	switch op.Kind {
+	case opExec, opExecHTML:
+		// executed through the handle: the name is the receiver's
+		if r != nil && r.Target != "" {
+			return r.Target, true
+		}
+		return op.Recv, op.Recv != ""
+	case opExecTmpl, opExecTmplHTML:
+		return op.Name, true
+	}
+	return "", false
+}
+
+func stateHas(state, name string) bool {
+	if state == "" {
+		return false
+	}
+	for _, n := range strings.Split(state, "\x00") {
+		if n == name {
+			return true
+		}
+	}
+	return false
+}
+
+// sameResult: does the observed result r equal the sequential result tr?
+func sameResult(r, tr *Result) (bool, string) {
+	if tr == nil {
+		return true, "" // reference aborted: inconclusive, never a violation
+	}
+	switch r.Kind {
+	case opLookup:
+		if r.Found != tr.Found || r.Target != tr.Target {
+			return false, fmt.Sprintf("Lookup: found=%v name=%q, sequentially found=%v name=%q", r.Found, r.Target, tr.Found, tr.Target)
+		}
+		return true, ""
+	case opTemplates, opDefined:
+		if strings.Join(r.Names, ",") != strings.Join(tr.Names, ",") {
+			return false, fmt.Sprintf("%s: %v, sequentially %v", r.Kind, r.Names, tr.Names)
+		}
+		return true, ""
+	case opName:
+		if r.Target != tr.Target {
+			return false, fmt.Sprintf("Name: %q, sequentially %q", r.Target, tr.Target)
+		}
+		return true, ""
+	}
+	if abortingFault(r) {
+		if !bytes.HasPrefix(tr.Out, r.Out) {
+			return false, fmt.Sprintf("aborted by %v after writing %q, not a prefix of the sequential %q", r.Fired, clip(string(r.Out)), clip(string(tr.Out)))
+		}
+		if r.Err == "" && (r.FailedAt != 0 || !hasFired(r, "write:")) {
+			return false, fmt.Sprintf("fault %v fired but the call returned nil", r.Fired)
+		}
+		return true, ""
+	}
+	if (r.Err == "") != (tr.Err == "") {
+		return false, fmt.Sprintf("err=%q, sequentially err=%q", clip(r.Err), clip(tr.Err))
+	}
+	if !bytes.Equal(r.Out, tr.Out) {
+		return false, fmt.Sprintf("wrote %q, sequentially %q", clip(string(r.Out)), clip(string(tr.Out)))
+	}
+	return true, ""
+}
+
 func checkC09(cr *checkResult) {
 	checkTotal(cr, "C09")
+	o := cr.out
+	c := cr.tw.c
+	if len(o.TaskRes) == 0 || o.Stats.Deadlock || o.Stats.Hang {
+		return
+	}
+	m := &c09Model{cr: cr}
+	var ops []porcupine.Operation
+	for t, rs := range o.TaskRes {
+		for i, r := range rs {
+			if !r.Done || r.Skipped != "" || r.Panic != "" || r.Aborted != "" {
+				continue
+			}
+			ops = append(ops, porcupine.Operation{
+				ClientId: t, Input: &c.Tasks[t][i], Call: int64(r.Inv), Output: r, Return: int64(r.Ret),
+			})
+		}
+	}
+	if len(ops) == 0 {
+		return
+	}
+	// porcupine's own timeout leaves its search goroutine running, which would
+	// overlap the next simulated run; bound the search by a step budget instead
+	// and treat an exhausted budget as inconclusive.
+	steps, gaveUp := 0, false
+	model := porcupine.Model{
+		Init: func() interface{} { return "" },
+		Step: func(state, input, output interface{}) (bool, interface{}) {
+			steps++
+			if steps > 20000 || cr.tw.builds > 1500 {
+				gaveUp = true
+				return false, state
+			}
+			st := state.(string)
+			op := input.(*Op)
+			r := output.(*Result)
+			tr := cr.tw.after(m.prefixOps(st), op)
+			ok, _ := sameResult(r, tr)
+			if !ok {
+				return false, st
+			}
+			if n, is := firstExecName(op, r); is && !stateHas(st, n) {
+				if st == "" {
+					st = n
+				} else {
+					st = st + "\x00" + n
+				}
+			}
+			return true, st
+		},
+		Equal: func(a, b interface{}) bool { return a.(string) == b.(string) },
+	}
+	res := porcupine.CheckOperationsTimeout(model, ops, 0)
+	if gaveUp {
+		res = porcupine.Unknown
+	}
+	switch res {
+	case porcupine.Ok:
+		cr.note("linearizable")
+	case porcupine.Unknown:
+		cr.note("linearizability_inconclusive")
+	case porcupine.Illegal:
+		// Explain: compare every call with the sequential result after the
+		// calls that returned before it was invoked (a necessary ordering).
+		var why []string
+		sort.Slice(ops, func(i, j int) bool { return ops[i].Call < ops[j].Call })
+		for _, p := range ops {
+			r := p.Output.(*Result)
+			op := p.Input.(*Op)
+			if tr := cr.tw.call(op); tr != nil {
+				if ok, d := sameResult(r, tr); !ok {
+					why = append(why, fmt.Sprintf("op %d (task %d, %s %q): %s [vs fresh set]", r.OpID, r.Task, r.Kind, r.Target, d))
+				}
+			}
+		}
+		opid := -1
+		if len(ops) > 0 {
+			opid = ops[len(ops)-1].Output.(*Result).OpID
+		}
+		cr.add("C09", "nonlinearizable", opid, "nonlinearizable", "no sequential order of the %d calls explains the results observed under this schedule (%d preemptions). Differences from a fresh set: %s", len(ops), o.Stats.Switches, strings.Join(why, "; "))
+	}
 }
